@@ -39,12 +39,12 @@ INT = {'std::int16', 'std::int32', 'std::int64'}
 FLOAT = {'std::float32', 'std::float64'}
 
 ATOMS = {
-    'int64': ['1', 'User.age', '5'],
+    'int64': ['1', 'User.age', '5', '<int64>$1'],
     'int32': ['<int32>2'],
     'int16': ['<int16>2', 'User.lvl'],
     'float64': ['1.5', 'User.score', '2.5'],
-    'float32': ['<float32>1.5'],
-    'small': ['<small>1', 'User.s'],
+    'float32': ['<float32>1.5', '<float32>$2'],
+    'small': ['<small>1', 'User.s', '<small>$0'],
     'tiny': ['<tiny>2'],
     'str': ["'s'", 'User.name'],
     'bool': ['true'],
@@ -191,7 +191,13 @@ def queries(quick):
     return list(dict.fromkeys(qs))
 
 
+# query parameters: the compiler sees `<T>$n`, the evaluator the same cast
+# applied to a fixed argument value that conforms to T
+PARAM_VALUES = {'$0': '2', '$1': '7', '$2': '1.5'}
+
+
 def for_evaluator(q):
+    q = re.sub(r'\$[012]', lambda m: PARAM_VALUES[m.group(0)], q)
     return re.sub(r'<(small|tiny)>', '<int64>', q)
 
 
